@@ -98,14 +98,18 @@ def interp(ctx, kind="volFrac", ineq=">", pi=1, N=3):
     cv = monitored(d, kind, n, pi)
     if n > 0:
         pv = monitored(d, kind, n - 1, pi)
-        ctx.assume(ctx.neg(holds(ctx, ineq, pv, thr)), "previous step did not satisfy the condition")
+        # whether the previous step already satisfied the condition is left open: a condition that holds in the initial state, or
+        # one added to a model that was solved past the threshold, is first tested on a step without a crossing
+        prev_held = holds(ctx, ineq, pv, thr)
     c.testCondition(m)
     got = c.isSatisfied()
     st = c.satisfiedTime()
     if n > 0:
         tp, tc = d.time[n - 1], d.time[n]
         ctx.prove("time within the crossing step", ctx.implies(got, ctx.all([ctx.le(tp, st), ctx.le(st, tc)])))
-        ctx.prove("time is the linear interpolant", ctx.implies(got, ctx.eq((st - tp) * (cv - pv), (tc - tp) * (thr - pv))))
+        ctx.prove("time is the linear interpolant", ctx.implies(ctx.all([got, ctx.neg(prev_held)]), ctx.eq((st - tp) * (cv - pv), (tc - tp) * (thr - pv))))
+        ctx.prove("no crossing on this step (already met at its start): reported time is the start of the step",
+                  ctx.implies(ctx.all([got, prev_held]), ctx.eq(st, tp)))
     else:
         ctx.prove("time at step 0 is t_0", ctx.implies(got, ctx.eq(st, d.time[0])))
 
@@ -214,7 +218,7 @@ def ttp_table(ctx, nc=2, nT=2):
 _F = [SC.PrecipitationStoppingCondition.testCondition, SC.PrecipitationStoppingCondition._testCondition, SC.PrecipitationStoppingCondition._poll,
       SC.CompositionCondition._poll, SC.PrecipitationStoppingCondition.reset, PrecipitateBase.postProcess, PrecipitateBase.addStoppingCondition,
       PrecipitateBase.phaseIndex, TTPCalculator._getStopTime, TTPCalculator.__init__]
-_A = ["recorded time stamps strictly increase (C05)", "history arrays arbitrary reals", "interp: the step before the crossing did not satisfy the condition"]
+_A = ["recorded time stamps strictly increase (C05)", "history arrays arbitrary reals", "interp: the previous step may or may not have satisfied the condition already"]
 _all_kinds = [{"kind": k, "ineq": i, "pi": p} for k in KINDS for i in (">", "<") for p in (None, 0, 1)]
 HARNESSES = [
     Harness("C19.read", read, functions=_F, assumptions=_A, bounds={"history length": "N", "phases/elements": 2},
